@@ -213,3 +213,233 @@ pub fn inverse_pairs(n: u32, es: u32, extra: u32) -> Vec<(u32, u32)> {
     v.dedup();
     v
 }
+
+// -------------------------------------------------------------------------------------------------
+// "solve for the addend": exact results within one unit of the addend's last place of a rounding boundary
+// -------------------------------------------------------------------------------------------------
+
+/// Operand pairs (positive) whose exact product lies unusually close to a rounding boundary of the result
+/// format: the bits below the guard bit start with a run of r >= zmin zeros or ones (so the product is within
+/// 2^-r guard-bit units of a tie or of a representable value) — found by a complete scan of the cross
+/// products of operand lists (every fraction shape + `extra` fixed LCG-generated unstructured fractions) at a
+/// menu of operand scales. An addend that completes such a product to the boundary lies r + (fraction length
+/// of the result) binades below the product with all of its fraction bits significant: the hardest alignment
+/// case for a fused multiply-add. The candidates are stratified by (scale of the product, run length r,
+/// zeros/ones): up to `per_bucket` pairs are kept per class (unstructured operands first), so that every
+/// alignment that occurs at all is represented at every product scale.
+pub fn near_tie_pairs(n: u32, es: u32, extra: u32, zmin: u32, per_bucket: usize) -> Vec<(u32, u32)> {
+    let lim = (n as i32 - 2) * (1 << es);
+    let menu: Vec<i32> = {
+        let base = [0i32, 1, 2, 3, 5, 7, 9, 12, 14, 16, 18, 20, 22, 27, 31, 36, 44, 52, 60];
+        let mut v: Vec<i32> = base.iter().flat_map(|&s| [s, -s]).filter(|s| s.abs() < lim).collect();
+        v.sort();
+        v.dedup();
+        v
+    };
+    // operand lists per scale: (bits, significand, exponent, unstructured)
+    let mut st: u64 = 0x9E37_79B9_7F4A_7C15 ^ ((n as u64) << 40) ^ ((es as u64) << 32);
+    let lists: Vec<Vec<(u32, u128, i32, bool)>> = menu
+        .iter()
+        .map(|&s| {
+            let Some(nf) = frac_bits(n, es, s) else { return vec![] };
+            let sh = shapes(nf, true);
+            let mut fr = sh.clone();
+            if nf > 4 {
+                for _ in 0..extra {
+                    st = st.wrapping_mul(6364136223846793005).wrapping_add(1442695040888963407);
+                    fr.push(((st >> 24) as u32) & (((1u64 << nf) - 1) as u32));
+                }
+            }
+            fr.sort();
+            fr.dedup();
+            fr.into_iter()
+                .map(|f| {
+                    let p = build(n, es, s, |_| f).unwrap();
+                    let x = o::decode(n, es, p).unwrap();
+                    (p, x.m, x.e, sh.binary_search(&f).is_err())
+                })
+                .collect()
+        })
+        .collect();
+    // fraction length of the result by scale
+    let nf_of: Vec<Option<u32>> = (-lim..=lim).map(|s| frac_bits(n, es, s)).collect();
+    let combos: Vec<(usize, usize)> = (0..menu.len()).flat_map(|i| (i..menu.len()).map(move |j| (i, j))).collect();
+    // candidate = (scale, run, ones, structured, a, b)
+    type Cand = (i16, u8, bool, bool, u32, u32);
+    let chunks: Vec<Vec<Cand>> = std::thread::scope(|sc| {
+        let hs: Vec<_> = (0..16usize)
+            .map(|t| {
+                let (lists, nf_of, combos) = (&lists, &nf_of, &combos);
+                sc.spawn(move || {
+                    let mut v: Vec<Cand> = vec![];
+                    for (ci, &(i, j)) in combos.iter().enumerate() {
+                        if ci % 16 != t {
+                            continue;
+                        }
+                        for &(pa, ma, ea, ua) in &lists[i] {
+                            for &(pb, mb, eb, ub) in &lists[j] {
+                                let p = ma * mb;
+                                let tz = p.trailing_zeros();
+                                let p = p >> tz; // odd: the lowest product bit is significant
+                                let l = 127 - p.leading_zeros();
+                                let s = ea + eb + (tz + l) as i32;
+                                if s.abs() >= lim {
+                                    continue;
+                                }
+                                let Some(nf) = nf_of[(s + lim) as usize] else { continue };
+                                if l < nf + 1 + zmin + 1 {
+                                    continue;
+                                }
+                                let tw = l - nf - 1; // bits below the guard bit, the lowest of them is set
+                                let tail = p & ((1u128 << tw) - 1);
+                                let lead_ones = (tail << (128 - tw)).leading_ones().min(tw);
+                                let lead_zeros = (tail << (128 - tw)).leading_zeros().min(tw);
+                                let (r, ones) = if lead_ones > 0 { (lead_ones, true) } else { (lead_zeros, false) };
+                                if r >= zmin && r < tw {
+                                    v.push((s as i16, r as u8, ones, !(ua || ub), pa, pb));
+                                }
+                            }
+                        }
+                    }
+                    v
+                })
+            })
+            .collect();
+        hs.into_iter().map(|h| h.join().unwrap()).collect()
+    });
+    let mut all: Vec<Cand> = chunks.into_iter().flatten().collect();
+    all.sort();
+    all.dedup();
+    let mut v: Vec<(u32, u32)> = vec![];
+    let mut i = 0;
+    while i < all.len() {
+        let key = (all[i].0, all[i].1, all[i].2);
+        let mut j = i;
+        while j < all.len() && (all[j].0, all[j].1, all[j].2) == key {
+            j += 1;
+        }
+        // unstructured candidates sort first within the class; take evenly spaced members
+        let cnt = j - i;
+        let take = cnt.min(per_bucket);
+        for t in 0..take {
+            let c = all[i + t * cnt / take];
+            v.push((c.4, c.5));
+        }
+        i = j;
+    }
+    v.sort();
+    v.dedup();
+    v
+}
+
+/// For every pair (a, b) with exact product P and every target boundary T (a representable value or the
+/// midpoint of two adjacent posits): the addend c = RN(+-T - P) and its encoding neighbours, so that a*b + c is
+/// within one unit in c's last place of the boundary and the rounding direction is decided by the lowest bits
+/// of c (when c is far below the product) or of the product (when the product is far below c).
+///   near targets: the three posits around RN(P), the two midpoints between them, and zero (c = -RN(P): massive
+///                 cancellation, the result is the rounding residual of the product);
+///   far targets : for j = 1..=jmax a posit with leading bit j binades above the product's (fraction from a
+///                 small menu), itself and the midpoint above it, with both signs.
+/// `nb` = number of encoding neighbours of c tried (odd). kind: 0 mul_add, 1 mul_sub, 2 sub_product (the sign of
+/// c is adapted so that the effective operation is the same).
+pub fn solve_space(n: u32, es: u32, pairs: Arc<Vec<(u32, u32)>>, jmax: u32, nfm: u32, nb: u32, kind: u8, what: &str) -> Space {
+    let m = if n == 32 { u32::MAX } else { (1u32 << n) - 1 };
+    let near = 6 * nb as u64;
+    let far = jmax as u64 * nfm as u64 * 2 * 2 * nb as u64;
+    let per = (near + far) * 2;
+    let np = pairs.len() as u64;
+    let lim = (n as i32 - 2) * (1 << es) - 1;
+    let desc = format!(
+        "{} ({} pairs) x addend solved so that a*b+c is within one unit of c's last place of a rounding boundary: 5 boundaries around RN(a*b), zero (cancellation down to the product's rounding residual) + (boundary with leading bit 1..={} binades above the product x {} fractions x {{posit, midpoint}} x sign), x {} encoding neighbours of c x sign of the triple",
+        what, np, jmax, nfm, nb
+    );
+    Space::func(np * per, desc, move |i| {
+        let (a, b) = pairs[(i / per) as usize];
+        let r = i % per;
+        let flip = r & 1 == 1;
+        let r = r >> 1;
+        let (Some(x), Some(y)) = (o::decode(n, es, a), o::decode(n, es, b)) else { return 0 };
+        let p = o::mul(x, y);
+        let rb = o::round_ex(n, es, p).0; // positive operands: a positive encoding
+        let top = (1u32 << (n - 1)) - 1;
+        let (target, d): (Option<o::Ex>, i32) = if r < near {
+            let t = r / nb as u64;
+            let d = (r % nb as u64) as i32 - (nb as i32) / 2;
+            let tg = match t {
+                0 => (rb > 1).then(|| o::decode(n, es, rb - 1)).flatten(),
+                1 => o::decode(n, es, rb),
+                2 => (rb < top).then(|| o::decode(n, es, rb + 1)).flatten(),
+                3 => (rb > 1).then(|| o::decode64(n + 1, es, 2 * rb as u64 - 1)).flatten(),
+                5 => Some(o::ZERO), // cancellation: c = -RN(a*b) and neighbours, the result is the product's rounding residual
+                _ => (rb < top).then(|| o::decode64(n + 1, es, 2 * rb as u64 + 1)).flatten(),
+            };
+            (tg, d)
+        } else {
+            let mut w = r - near;
+            let d = (w % nb as u64) as i32 - (nb as i32) / 2;
+            w /= nb as u64;
+            let sg = w & 1 == 1;
+            w >>= 1;
+            let mid = w & 1 == 1;
+            w >>= 1;
+            let fi = (w % nfm as u64) as u32;
+            let j = (w / nfm as u64) as i32 + 1;
+            let sp = p.e + (127 - p.m.leading_zeros() as i32);
+            let sc = sp + j;
+            if sc.abs() > lim {
+                (None, d)
+            } else {
+                let xb = build(n, es, sc, |nf| {
+                    let full = if nf == 0 { 0 } else { ((1u64 << nf) - 1) as u32 };
+                    match fi {
+                        0 => 0,
+                        1 => 0x5555_5555 & full,
+                        2 => full,
+                        _ => 0x1234_5679 & full,
+                    }
+                });
+                let tg = xb.and_then(|xb| if mid { if xb < top { o::decode64(n + 1, es, 2 * xb as u64 + 1) } else { None } } else { o::decode(n, es, xb) });
+                (tg.map(|t| if sg { t.negate() } else { t }), d)
+            }
+        };
+        let Some(t) = target else { return (a as u128) << 64 | (b as u128) << 32 | (1u128 << (n - 2)) };
+        // mul_add form: a*b + c = T  =>  c = T - P
+        let c0 = o::round_ex(n, es, o::sub(t, p)).0;
+        let mut c = c0.wrapping_add(d as u32) & m;
+        let mut a = a;
+        if kind != 0 {
+            c = c.wrapping_neg() & m; // a*b - c and -(c - a*b): the same effective operation with c negated
+        }
+        if flip {
+            a = a.wrapping_neg() & m;
+            c = c.wrapping_neg() & m;
+        }
+        (a as u128) << 64 | (b as u128) << 32 | c as u128
+    })
+}
+
+/// plain unstructured operand pairs (fixed LCG sequence): positive posits of every scale with arbitrary fractions
+pub fn unstructured_pairs(n: u32, es: u32, count: usize) -> Vec<(u32, u32)> {
+    let mut st: u64 = 0xD1B5_4A32_D192_ED03 ^ ((n as u64) << 40) ^ ((es as u64) << 32);
+    let mut next = || {
+        st = st.wrapping_mul(6364136223846793005).wrapping_add(1442695040888963407);
+        ((st >> 31) as u32) >> (33 - n) // n-1 bits: a positive pattern
+    };
+    let lim = (n as i32 - 2) * (1 << es);
+    let mut v = vec![];
+    while v.len() < count {
+        let (a, b) = (next(), next());
+        if a == 0 || b == 0 {
+            continue;
+        }
+        // half of the pairs: both operands near one (full-length fractions)
+        let (a, b) = if v.len() % 2 == 0 { (a, b) } else { ((1u32 << (n - 2)) ^ (a >> 3), (1u32 << (n - 2)) ^ (b >> 3)) };
+        let (Some(x), Some(y)) = (o::decode(n, es, a), o::decode(n, es, b)) else { continue };
+        let p = o::mul(x, y);
+        let sp = p.e + (127 - p.m.leading_zeros() as i32);
+        if sp.abs() < lim - 1 {
+            v.push((a, b));
+        }
+    }
+    v
+}
